@@ -66,8 +66,21 @@ fn values(thorough: bool) -> Vec<Value> {
     out
 }
 
-fn client_messages(thorough: bool) -> Vec<CM> {
+/// Messages whose encoding is exactly as long as 1, 2 or 3 chunks of the line writer (1024 bytes), and
+/// one byte shorter / longer: the line break must follow whatever the payload length is.
+fn chunk_boundary_messages() -> Vec<CM> {
     let mut out = vec![];
+    let base = serde_json::to_string(&CM::Set(Set { transaction_id: 7, key: "k".into(), value: json!("") })).expect("json").len();
+    for target in [1022usize, 1023, 1024, 1025, 2047, 2048, 2049, 3072, 4096] {
+        let m = CM::Set(Set { transaction_id: 7, key: "k".into(), value: json!("x".repeat(target - base)) });
+        assert_eq!(serde_json::to_string(&m).expect("json").len(), target, "MACHINERY: padding");
+        out.push(m);
+    }
+    out
+}
+
+fn client_messages(thorough: bool) -> Vec<CM> {
+    let mut out = chunk_boundary_messages();
     let vals = values(thorough);
     let flags = [None, Some(false), Some(true)];
     for t in ids() {
